@@ -124,6 +124,20 @@ def w_schedule(case):
     if not direct:
         outs = outs + ['dose.drug_amount']
     m.set_outputs(outs)
+    # the schedule is applied whatever sensitivity switches happened since
+    seq = case.get('sens_seq', 'none')
+    if seq == 'on_on':
+        m.enable_sensitivities(True)
+        m.enable_sensitivities(True)
+    elif seq == 'on_subset':
+        m.enable_sensitivities(True)
+        m.enable_sensitivities(True, names[:2])
+    elif seq == 'on_off':
+        m.enable_sensitivities(True)
+        m.enable_sensitivities(False)
+    elif seq == 'off_on':
+        m.enable_sensitivities(False)
+        m.enable_sensitivities(True)
     for elim in (0.0, case['k_e']):
         values = {}
         for n in names:
@@ -140,7 +154,10 @@ def w_schedule(case):
             # switch off every outflow: only rate constants leaving the dosed
             # compartment matter for the cumulative-input statement; all are 0 here
             pass
-        y = np.asarray(m.simulate([values[n] for n in names], times), dtype=float)
+        y = m.simulate([values[n] for n in names], times)
+        if isinstance(y, tuple):
+            y = y[0]
+        y = np.asarray(y, dtype=float)
         ntr += 1
         ref = _solve(case, desc, values, times, events)
         exp = np.real(np.array([ref[o] for o in outs]))
@@ -217,6 +234,130 @@ def w_table(case):
                 'not list exactly the dose events applied up to then (%s)'
                 % (ft, reg), 'expected': exp, 'observed': got,
                 'behaviour': 'table_indefinite' if indefinite else 'table'})
+    return {'transitions': ntr, 'outcome': tol.rnd(outcome), 'violations': viol}
+
+
+def _wrapped_predictive(kind, reg_first, kw):
+    """A predictive-model wrapper over the dosed one-compartment model. The regimen
+    is either given to the underlying PredictiveModel before wrapping (reg_first) or
+    to the finished wrapper."""
+    import pints
+    import xarray as xr
+    from ..gen import popbuild
+    from ..ref import populations as rp
+
+    def pred():
+        m = chi.library.ModelLibrary().one_compartment_pk_model()
+        m.set_administration('central', direct=True)
+        pm = chi.PredictiveModel(m, [chi.GaussianErrorModel()])
+        if reg_first:
+            pm.set_dosing_regimen(**kw)
+        return pm
+
+    def dataset(shift, n_draws):
+        names = ['central.drug_amount', 'central.size', 'global.elimination_rate',
+                 'Sigma']
+        data = {}
+        for k, n in enumerate(names):
+            arr = 0.4 + shift + 0.03 * np.arange(2 * n_draws * 2).reshape(
+                2, n_draws, 2) + 0.25 * k
+            data[n] = (('chain', 'draw', 'individual'), arr)
+        return xr.Dataset(data, coords={
+            'chain': [0, 1], 'draw': list(range(n_draws)),
+            'individual': ['a', 'b']})
+    if kind == 'pop':
+        w = chi.PopulationPredictiveModel(pred(), popbuild.build(
+            rp.Comp([rp.P(1), rp.LN(1), rp.P(1), rp.P(1)]), None))
+        args = {'parameters': [0.6, 0.1, 0.3, 0.7, 0.2]}
+    elif kind == 'prior':
+        w = chi.PriorPredictiveModel(pred(), pints.ComposedLogPrior(*[
+            pints.UniformLogPrior(0.3 + 0.1 * i, 0.9 + 0.1 * i)
+            for i in range(4)]))
+        args = {}
+    elif kind == 'post':
+        w = chi.PosteriorPredictiveModel(pred(), dataset(0.0, 3))
+        args = {'individual': 'b'}
+    else:
+        w = chi.PAMPredictiveModel(
+            [chi.PosteriorPredictiveModel(pred(), dataset(0.0, 3)),
+             chi.PosteriorPredictiveModel(pred(), dataset(0.5, 2))], [0.45, 0.55])
+        args = {'individual': 'a'}
+    if not reg_first:
+        w.set_dosing_regimen(**kw)
+    return w, args
+
+
+def w_wrapped_table(case):
+    """Regimen tables and applied doses of the predictive-model wrappers."""
+    viol = []
+    reg = case['reg']
+    kw = {'dose': reg['dose'], 'start': reg['start'], 'duration': reg['duration']}
+    if reg['period'] is not None:
+        kw['period'] = reg['period']
+    if reg['num'] is not None:
+        kw['num'] = reg['num']
+    w, args = _wrapped_predictive(case['kind'], False, kw)
+    ref, _ = _wrapped_predictive(case['kind'], True, kw)
+    ntr = 4
+    outcome = []
+    for ft in case['final_times']:
+        df = w.get_dosing_regimen(final_time=ft)
+        ntr += 1
+        exp = rd.table(reg['dose'], reg['start'], reg['duration'], reg['period'],
+                       reg['num'], ft)
+        got = [] if df is None else sorted(
+            (float(r['Time']), float(r['Duration']), float(r['Dose']))
+            for _, r in df.iterrows())
+        outcome.append(got)
+        if not (len(got) == len(exp) and all(
+                tol.allclose(np.array(g), np.array(e)) for g, e in zip(got, exp))):
+            viol.append({
+                'sub': 'wrapped_table', 'message': '%s.get_dosing_regimen('
+                'final_time=%s) does not list exactly the dose events applied up to '
+                'then (%s)' % (type(w).__name__, ft, reg), 'expected': exp,
+                'observed': got, 'behaviour': 'wrapped_table'})
+    # the samples are simulated with exactly these doses: identical to the wrapper
+    # whose underlying model was given the regimen before it was wrapped
+    times = case['times']
+    for seed in (1, 2):
+        a = w.sample(times=times, n_samples=4, seed=seed, include_regimen=True,
+                     **args)
+        b = ref.sample(times=times, n_samples=4, seed=seed, include_regimen=True,
+                       **args)
+        ntr += 2
+        va = a['Value'].to_numpy(dtype=float)
+        vb = b['Value'].to_numpy(dtype=float)
+        if va.shape != vb.shape or not tol.allclose(va, vb, 1e-7, 1e-9):
+            viol.append({
+                'sub': 'wrapped_applied', 'message': 'samples of %s do not apply the '
+                'regimen set on it (differs from the same wrapper around a model '
+                'dosed before wrapping; %s)' % (type(w).__name__, reg),
+                'expected': vb, 'observed': va, 'behaviour': 'wrapped_applied'})
+            break
+        exp_rows = rd.table(reg['dose'], reg['start'], reg['duration'],
+                            reg['period'], reg['num'], max(times))
+        # (wrappers that simulate several individuals repeat the rows per ID)
+        da = []
+        bad = False
+        if 'Dose' in a:
+            rows = a[a['Dose'].notna()]
+            groups = [g for _, g in rows.groupby('ID', dropna=False)] \
+                if len(rows) else []
+            for g in groups:
+                got_rows = sorted((float(r['Time']), float(r['Duration']),
+                                   float(r['Dose'])) for _, r in g.iterrows())
+                da.append(got_rows)
+                if len(got_rows) != len(exp_rows) or (exp_rows and not tol.allclose(
+                        np.array(got_rows), np.array(exp_rows))):
+                    bad = True
+        if bad or (exp_rows and not da):
+            viol.append({
+                'sub': 'wrapped_rows', 'message': 'regimen rows included in the '
+                'samples of %s are not the doses up to the last sampled time (%s)'
+                % (type(w).__name__, reg), 'expected': exp_rows,
+                'observed': da, 'behaviour': 'wrapped_rows'})
+            break
+        outcome.append(tol.rnd(va, 8))
     return {'transitions': ntr, 'outcome': tol.rnd(outcome), 'violations': viol}
 
 
@@ -297,7 +438,8 @@ def w_dataset(case):
         'violations': viol}
 
 
-WORKERS = {'schedule': w_schedule, 'table': w_table, 'dataset': w_dataset}
+WORKERS = {'schedule': w_schedule, 'table': w_table, 'dataset': w_dataset,
+           'wrapped_table': w_wrapped_table}
 
 
 def regimens(tier):
@@ -346,6 +488,8 @@ def build(tier, seed):
                          'k_a': vals.real('c10.ka', 0.8, 2.5, seed),
                          'size': vals.real('c10.size', 0.7, 2.0, seed)}
                     c.update(perms)
+                    c['sens_seq'] = ['none', 'on_on', 'on_subset', 'on_off',
+                                     'off_on'][i % 5]
                     sched.append(c)
                 i += 1
     finals = [None, 0.3, 1.0, 2.0, 2.5, 5.0]
@@ -355,6 +499,15 @@ def build(tier, seed):
         if reg['period']:
             ft += [reg['start'] + reg['period'], reg['start'] + 2 * reg['period']]
         table.append({'reg': reg, 'route': 'direct', 'final_times': ft})
+    wrapped = []
+    wregs = regimens('thorough')
+    if tier == 'quick':
+        wregs = wregs[::5]
+    for kind in ('pop', 'prior', 'post', 'pam'):
+        for reg in wregs:
+            ft = [None, 1.0, 2.5, reg['start'], reg['start'] + reg['duration']]
+            wrapped.append({'kind': kind, 'reg': reg, 'final_times': ft,
+                            'times': [0.4, 1.3, 2.2, 3.1]})
     # dose tables: 0-2 dose rows per individual, with / without duration column
     data = []
     row_opts = [[], [(0.0, 2.0, 0.5)], [(1.0, 3.0, None)],
@@ -375,6 +528,10 @@ def build(tier, seed):
                  'regimen product x route x dosed compartment x model'),
             Part('table', table, w_table,
                  'PredictiveModel.get_dosing_regimen over a menu of final times'),
+            Part('wrapped_table', wrapped, w_wrapped_table,
+                 'population / prior / posterior / averaged predictive models: '
+                 'regimen table and applied doses (against the same wrapper around '
+                 'a model dosed before wrapping)'),
             Part('dataset', data, w_dataset,
                  'controller regimens from small dose tables'),
         ],
